@@ -19,12 +19,13 @@ BIN = os.path.join(TARGET, 'debug', 'reval-replay')
 FAMILIES = {
     'C01': ['ops', 'compose'], 'C02': ['ops', 'compose', 'lazy'], 'C03': ['ops', 'compose'], 'C04': ['ops', 'compose'],
     'C05': ['lazy'], 'C09': ['ruleset'], 'C10': ['ops', 'ruleset', 'builder'], 'C11': ['ruleset', 'lazy'],
-    'C15': ['builder'], 'C17': ['convert'], 'C13': ['ser'],
+    'C15': ['builder'], 'C17': ['convert'], 'C13': ['ser'], 'C06': ['parse'],
 }
 BOUNDS = ('operand pool of 65 boundary values per operand position (every type, its extremes, None, empty/nested containers); '
           'expression depth 1 (ops) / 2 (compose, 12-value pool); lazy: 5 conditions x 5 leaves per operator, every error position in '
           '4-element lists/maps; rulesets of <= 3 rules from 23 building blocks, 2 consecutive evaluations; builder: 53 function names, '
           'all 3-sequences over 4 rule names through with_rule / with_rules, 5 symbol mixes; convert: type bounds +-1 and wrong kinds; '
+          'parse: every sequence of <= 2 (thorough: <= 3) tokens over a 56-token alphabet through Expr::parse and Rule::parse, out-of-range numerals in every numeric position, every one-character escape, unicode escape forms, non-ASCII/control characters in 12 templates; '
           'ser: 85 values covering every serde data-model kind at its limits, nested containers, non-string keys, failing Serialize impls')
 
 _build_cache = {}
